@@ -146,7 +146,8 @@ def scenario(pk, params, inp):
 
 class _ArrayStore:
     """Symbolic world only: np.save / np.load inside regret.py.  Contract: what np.save wrote is what np.load returns (shape, values; a
-    copy, never an alias); '.npy' is appended when missing; loading what was never saved raises FileNotFoundError."""
+    copy, never an alias - unless the caller asks for a read-write memory map, which IS the file); '.npy' is appended when missing;
+    loading what was never saved raises FileNotFoundError."""
 
     def __init__(self):
         self.files = {}
@@ -163,12 +164,17 @@ class _ArrayStore:
         self.files[self._name(path)] = np.array(np.asarray(arr).view(np.ndarray), dtype=object, copy=True).view(SymArray)
         open(self._name(path), "wb").close()
 
-    def load(self, path, *a, **k):
+    def load(self, path, mmap_mode=None, *a, **k):
         import os
         p = os.fspath(path)
         if p not in self.files:
             raise FileNotFoundError(p)
-        return self.files[p].copy()
+        if mmap_mode in ("r+", "w+"):
+            return self.files[p]             # memory-mapped read-write: the array IS the file, in-place updates are written through
+        arr = self.files[p].copy()
+        if mmap_mode == "r":
+            arr.flags.writeable = False      # read-only mapping: an in-place update raises, like numpy's memmap
+        return arr                            # None / 'c' (copy-on-write): private copy
 
 
 def _snapshot(pk, m, viable):
